@@ -59,7 +59,7 @@ def run_last_an(orb, q):
     def gp(utc_time, normalize=True):
         r = orig(utc_time, normalize=normalize)
         if isinstance(utc_time, np.datetime64):
-            calls.append((utc_time, float(r[0][2])))
+            calls.append((utc_time, r[0][2], r[1][2]))
         return r
 
     orb.get_position = gp
@@ -118,8 +118,9 @@ def coq_replay(items):
             "Set Printing Depth 1000000.\nSet Printing Width 200.\n")
     body = []
     for unit, tbl, tick in items:
-        body.append("Eval vm_compute in (replay %s [%s] (%d)%%Z).\n" % (
-            UNITS[unit], "; ".join("((%d)%%Z, %s)" % (k, qlit(v)) for k, v in tbl), tick))
+        body.append("Eval vm_compute in (replay %s [%s] [%s] (%d)%%Z).\n" % (
+            UNITS[unit], "; ".join("((%d)%%Z, %s)" % (k, qlit(v)) for k, v, _ in tbl),
+            "; ".join("((%d)%%Z, (%d)%%Z)" % (k, sh) for k, _, sh in tbl), tick))
     ok, out = common.coq_eval("c11", head + "".join(body), timeout=900)
     if not ok:
         return None, out
@@ -289,11 +290,15 @@ def run(ctx):
                               {"signature": "C11:node:%s:%s" % (name, "hang" if err == "Timeout" else "raises"), **pub(tle, representation=name, query=t_query.isoformat())})
                 continue
             node_oracle(ctx, orb, tle, name, t_query, res, period_s)
-            wunit = np.datetime_data(res.dtype)[0]
-            tbl = [(int(t.astype("datetime64[%s]" % wunit).astype("int64")), zv) for t, zv in calls]
+            wunit = np.datetime_data(calls[0][0].dtype)[0]
+            if any(np.datetime_data(t.dtype)[0] != wunit for t, _, _ in calls):
+                ctx.corr_fail("get_last_an_time evaluates get_position in one working unit", pub(tle, representation=name, units=[str(t.dtype) for t, _, _ in calls]))
+                continue
+            # shift = int(round(pos[2] / vel[2] * 1e6)) exactly as _refine_an_time computes it, from the recorded binary64 values
+            tbl = [(int(t.astype("int64")), float(zv), (int(round(zv / vz * 1e6)) if vz != 0 else 0)) for t, zv, vz in calls]
             tick = int(q.astype("int64")) if isinstance(q, np.datetime64) else int(np.datetime64(t_query, "us").astype("int64"))
             items.append((unit, tbl, tick))
-            metas.append((tle, name, t_query, int(res.astype("int64")), len(calls), wunit))
+            metas.append((tle, name, t_query, int(res.astype("int64")), len(calls), "%s->%s" % (wunit, np.datetime_data(res.dtype)[0])))
     for lo in range(0, len(items), 150):
         flats, out = coq_replay(items[lo:lo + 150])
         if flats is None:
